@@ -72,8 +72,12 @@ fn special_lat() -> BoxedStrategy<f64> {
 }
 
 fn seam_pos() -> BoxedStrategy<Pos> {
-  (prop_oneof![3 => -16i32..=16, 1 => -32i32..=32], special_lat(), -2i32..=2, -2i32..=2)
-    .prop_map(|(k, lat, n1, n2)| Pos::new(nudge(k as f64 * (PI / 4.0), n1), nudge(lat, n2), "seam"))
+  // the special meridians / latitudes exactly, a few ulps away, or at a log-uniform distance
+  // 1e-15 .. 1e-3 rad on either side (a branch selected with a tolerance instead of the exact
+  // comparison shows only between the ulp and that tolerance)
+  let off = || prop_oneof![3 => Just(0.0f64), 2 => (3.0f64..15.0, any::<bool>()).prop_map(|(u, neg)| if neg { -(10.0f64).powf(-u) } else { (10.0f64).powf(-u) })];
+  (prop_oneof![3 => -16i32..=16, 1 => -32i32..=32], special_lat(), -2i32..=2, -2i32..=2, off(), off())
+    .prop_map(|(k, lat, n1, n2, o1, o2)| Pos::new(nudge(k as f64 * (PI / 4.0), n1) + o1, nudge(lat, n2) + o2, "seam"))
     .boxed()
 }
 
